@@ -6,6 +6,7 @@ import N2k.Lemmas.TPTime
 import N2k.Lemmas.TPLinkMain
 import N2k.Lemmas.TPLinkBam
 import N2k.Lemmas.TPPacing
+import N2k.Lemmas.TPSafeRx
 /-!
 # C10 — ISO transport protocol transfers complete intact or abort cleanly
 
@@ -362,6 +363,54 @@ theorem C10_open_transfer_stays_polled (n : Node) (i : Nat) (c : Msg) (h : (n.tp
   exact ⟨by simp [updateHasPending, Node.setTp, h], hp.1, hp.2.1, hp.2.2.1, hp.2.2.2, hc.1, hc.2.1, hc.2.2.1, hc.2.2.2⟩
 
 example : (((startSendTP exNode exMsg 0).1.tp 0).timer.isEnabled (startSendTP exNode exMsg 0).1.s.flavor) = true := by decide
+
+/-! ## safety of the receiver over every history -/
+
+/-- **Receiver safety for EVERY history** (also used by C07). Start from any node state that satisfies the receiver invariant
+`NodeInv n₀ evs₀` - in particular any freshly opened node (`NodeInv.init`: all slots free, nothing delivered yet, empty
+history), and every state reachable from one, since the invariant is preserved by every step. Let ANY list of steps happen:
+frames handled one by one or queued and read by `ParseMessages` (TP.CM / TP.DT / anything else, any identifier - so any source
+and destination, ours or not -, any DLC and bytes: announced sizes 0..65535, packet counts and sequence numbers 0..255), polls,
+the clock set to any value, application sends, address changes, in any order and number. Then the invariant still holds, and
+every call of the application handler that a transport-protocol transfer caused (`d.tp`) satisfies, with `evs` the transport
+events (`tpEvent`) of the frames handled so far in order:
+* `d.len ≤ 223` and `d.data` has exactly `d.len` bytes;
+* there is a prefix `h` of the history at whose end the reference bookkeeping `Spec.tpTrack` of the pair
+  `d.src → d.dst` has an open transfer `x` - i.e. since the pair's last announce its data packets arrived with the numbers
+  1, 2, … in order and no other data packet of the pair in between - with the PGN and size of that announce equal to `d.pgn`
+  and `d.len`, whose packets carry at least `d.len` bytes, and `d.data` is exactly the first `d.len` bytes of those packets'
+  payloads: no over-long delivery, no bytes of another session or source, no delivery without a complete in-order sequence. -/
+theorem C10_receiver_safe_all_histories (n₀ : Node) (evs₀ : List TpEv) (h₀ : NodeInv n₀ evs₀) (steps : List RxStep) :
+    NodeInv (steps.foldl rxStep (n₀, evs₀)).1 (steps.foldl rxStep (n₀, evs₀)).2 ∧
+    ∀ d ∈ (steps.foldl rxStep (n₀, evs₀)).1.out, d.tp = true →
+      d.len ≤ 223 ∧ d.data.length = d.len ∧
+      ∃ h x, h <+: (steps.foldl rxStep (n₀, evs₀)).2 ∧ tpTrack d.src d.dst h = some x ∧ x.pgn = d.pgn ∧ x.size = d.len ∧
+        d.len ≤ x.pk.flatten.length ∧ d.data = x.pk.flatten.take d.len := by
+  have h := rxRun_inv steps (n₀, evs₀) h₀
+  exact ⟨h, fun d hd ht => h.good d hd ht⟩
+
+/-- the start state: a node whose receive slots are all free and that has delivered nothing -/
+theorem C10_receiver_inv_init (n : Node) (hs : ∀ a ∈ n.slots, a.free = true) (ho : n.out = []) : NodeInv n [] :=
+  NodeInv.init n hs ho
+
+/-- non-vacuity: on the example node two 9-byte transfers from the sources 40 and 41 interleave and complete (41 first), a third
+one from source 42 is aborted by an out-of-sequence packet, a BAM from 43 is announced too large; exactly the two good
+payloads reach the handler, each once -/
+def exHistory : List RxStep :=
+  [ .frame (cmIn 40 20 [16, 9, 0, 2, 0xff, 0x14, 0xf0, 0x01]), .frame (cmIn 41 20 [16, 9, 0, 2, 0xff, 0x16, 0xf0, 0x01]),
+    .frame (dtIn 40 20 [1, 1, 2, 3, 4, 5, 6, 7]), .frame (dtIn 41 20 [1, 11, 12, 13, 14, 15, 16, 17]),
+    .frame (cmIn 42 20 [16, 20, 0, 3, 0xff, 0x14, 0xf0, 0x01]), .time 1040,
+    .frame (dtIn 41 20 [2, 18, 19, 0xff, 0xff, 0xff, 0xff, 0xff]), .frame (dtIn 42 20 [2, 0, 0, 0, 0, 0, 0, 0]),
+    .frame (cmIn 43 255 [32, 0x2c, 1, 43, 0xff, 0x14, 0xf0, 0x01]), .frame (dtIn 43 255 [1, 9, 9, 9, 9, 9, 9, 9]),
+    .frame (dtIn 42 20 [1, 0, 0, 0, 0, 0, 0, 0]), .frame (dtIn 40 20 [2, 8, 9, 0xff, 0xff, 0xff, 0xff, 0xff]) ]
+
+example : (∀ a ∈ exNode.slots, a.free = true) ∧ exNode.out = [] ∧
+    ((exHistory.foldl rxStep (exNode, [])).1.out.map fun d => (d.tp, d.pgn, d.src, d.dst, d.len, d.data)) =
+      [(true, 126998, 41, 20, 9, [11, 12, 13, 14, 15, 16, 17, 18, 19]), (true, 126996, 40, 20, 9, [1, 2, 3, 4, 5, 6, 7, 8, 9])] := by
+  refine ⟨?_, rfl, by rfl⟩
+  intro a ha
+  simp [exNode] at ha
+  rw [ha]
 
 /-! ## timeouts -/
 
